@@ -9,9 +9,12 @@
 (* remainder; z = documented zero-divisor class ("none" | "na");            *)
 (* mo = class of a quotient outside [MIN, MAX], i.e. MIN / -1:              *)
 (*   "none"  documented: the quotient is reported as none                   *)
-(*   "panic" the assigning / Wrapping / DivVartime forms `expect` the       *)
-(*           quotient and say nothing about it: a panic is tolerated, and   *)
-(*           so is the wrapped quotient — nothing else                      *)
+(*   "report" DivVartime and `/=` on Int return a bare Int: "the quotient   *)
+(*           is reported" can only mean the panic of their `expect`; a      *)
+(*           value (the wrapped quotient MIN) is not q = trunc(n/d)         *)
+(*   "panic" the Wrapping forms `expect` the quotient and say nothing about *)
+(*           it: the panic is tolerated, and so is the wrapped quotient     *)
+(*           (the advertised meaning of Wrapping) — nothing else            *)
 (*   "na"    unsigned divisor: cannot happen.                               *)
 (* Outputs: q (nb bits), r (rb bits), qs = is_some of the quotient for the  *)
 (* forms returning (ConstCtOption<q>, r) — there the remainder is returned  *)
@@ -78,6 +81,7 @@ LOCAL JudgeSDiv(e) ==
               /\ QuotOK(e, Q) /\ RemOK(e, R) /\ Identity(e)
        ELSE IF e.oq = 1 /\ ~qfits                        \* MIN / -1 in a form that yields a quotient
          THEN \/ e.mo = "none" /\ e.k = "none"
+              \/ e.mo = "report" /\ e.k = "panic"
               \/ e.mo = "panic" /\ (e.k = "panic" \/ (e.k = "ok" /\ Has(e, "q") /\ QuotOK(e, Q) /\ RemOK(e, R)))
        ELSE full
 
